@@ -38,9 +38,16 @@ func applyCase(s string, mask uint64) string {
 	return string(b)
 }
 
+// polyEnzyme assembles the enzyme value by hand, as a user with an enzyme table of his own does. The regular
+// expressions are what finds the site (in the upper-cased part); the RecognitionSite field is spelt in lower case for
+// every second geometry - the field's letter case says nothing about where the enzyme cuts.
 func polyEnzyme(e refclone.Enzyme) clone.Enzyme {
+	site := e.Site
+	if (e.Skip+e.OverhangLen+len(e.Site))%2 == 1 {
+		site = strings.ToLower(site)
+	}
 	return clone.Enzyme{Name: e.Name, RegexpFor: regexp.MustCompile(e.Site), RegexpRev: regexp.MustCompile(ref.RevComp(e.Site)),
-		Skip: e.Skip, OverhangLen: e.OverhangLen, RecognitionSite: e.Site}
+		Skip: e.Skip, OverhangLen: e.OverhangLen, RecognitionSite: site}
 }
 
 func cut(c Case, seq string) ([]refclone.Fragment, error) {
@@ -58,6 +65,7 @@ func cut(c Case, seq string) ([]refclone.Fragment, error) {
 	out := make([]refclone.Fragment, len(frags))
 	for i, f := range frags {
 		out[i] = refclone.Fragment{Forward: f.ForwardOverhang, Interior: f.Sequence, Reverse: f.ReverseOverhang}
+		frags[i] = clone.Fragment{Sequence: "overwritten", ForwardOverhang: "by the", ReverseOverhang: "caller"} // the list belongs to the caller
 	}
 	return out, nil
 }
